@@ -376,6 +376,7 @@ class Semaphore:
             if self.value <= 0:
                 s.note(got=False)
                 return False
+            s.note(got=True)
         else:
             ct = s.yield_point("acquire", enabled=lambda: self.value > 0, sem=self.name)
         self.value -= 1
@@ -387,11 +388,12 @@ class Semaphore:
     def release(self, n=1):
         ct = self._s.yield_point("release", sem=self.name)
         who = ct.id if ct is not None else "driver"
+        # a semaphore has no owner: a release by a thread that took no permit just adds one (the counter may then
+        # exceed its initial value - an observation for the property, not an error of the scheduler); the threads
+        # that did take a permit are still inside
         self.value += n
         if who in self.holders:
             self.holders.remove(who)
-        elif self.holders:
-            self.holders.pop(0)
 
     def __exit__(self, *a):
         self.release()
